@@ -396,6 +396,7 @@ func cmdCheck(args []string) int {
 	vac := map[string]string{}
 	replayDir := filepath.Join(filepath.Dir(*out), "replay", *prop)
 	os.RemoveAll(replayDir)
+	var vacuous []*Obligation
 	sort.Slice(obls, func(i, j int) bool { return obls[i].Name < obls[j].Name })
 	for _, o := range obls {
 		r := OblReport{Name: o.Name, Kind: o.Kind, Func: shortCallee(o.Func), Src: o.Src, Line: o.Line, Verdict: o.Res.Verdict, Solver: o.Res.Solver, Time: o.Res.Time, All: o.Res.All, SMTBytes: len(o.Query)}
@@ -403,7 +404,9 @@ func cmdCheck(args []string) int {
 		if o.Cover {
 			vac[o.Name] = o.Res.Verdict
 			if o.Res.Verdict == "unsat" {
-				broken = append(broken, fmt.Sprintf("vacuous: %s (%s) — assumptions are contradictory", o.Name, o.Src))
+				// the code behind this point is unreachable under the contracts: everything proved there holds
+				// vacuously.  Reported as a violation of the cover obligation (it passes on the unchanged tree).
+				vacuous = append(vacuous, o)
 			}
 			reports = append(reports, r)
 			continue
@@ -468,6 +471,13 @@ func cmdCheck(args []string) int {
 			suffix = " no-failing-input-found"
 		}
 		violations = append(violations, fmt.Sprintf("VIOLATION property=%s replay=%s obligation=%s verdict=%s%s", *prop, path, o.Name, o.Res.Verdict, suffix))
+	}
+	for _, o := range vacuous {
+		path := filepath.Join(replayDir, sanitize(o.Name)+".json")
+		os.MkdirAll(replayDir, 0o755)
+		data, _ := json.MarshalIndent(map[string]string{"obligation": o.Name, "detail": "the assumptions at this point are contradictory (" + o.Src + "): what is proved behind it holds vacuously", "clause_at": o.Line}, "", " ")
+		os.WriteFile(path, data, 0o644)
+		violations = append(violations, fmt.Sprintf("VIOLATION property=%s replay=%s obligation=%s verdict=vacuous no-failing-input-found", *prop, path, o.Name))
 	}
 	for _, wr := range e.wireChecks() {
 		nObl++
